@@ -26,9 +26,11 @@ func init() {
 		Run: runC15,
 		Mutants: []Mutant{
 			{Name: "unlocked-conf-read-after-swap", File: "bfe_server/bfe_confdata_load.go", Old: "	srv.ReverseProxy.setTransports(newServerConf.ClusterTable.ClusterMap())", New: "	srv.ReverseProxy.setTransports(srv.ServerConf.ClusterTable.ClusterMap())", Expect: "guarded-by"},
-			{Name: "findcluster-reads-live-conf", File: "bfe_server/find_location.go", Old: "	serverConf := req.SvrDataConf.(*bfe_route.ServerDataConf)\n	// look up for cluster", New: "	serverConf := srv.GetServerConf()\n	// look up for cluster", Expect: "snapshot"},
+			{Name: "findcluster-reads-live-conf", File: "bfe_server/find_location.go", Old: "	serverConf := req.SvrDataConf.(*bfe_route.ServerDataConf)\n\n	// look up clusterName", New: "	serverConf := srv.GetServerConf()\n\n	// look up clusterName", Expect: "snapshot"},
 			{Name: "module-table-unlocked-search", File: "bfe_modules/mod_block/product_rule_table.go", Old: "	t.lock.RLock()\n	productRules := t.productRules\n	t.lock.RUnlock()\n", New: "	productRules := t.productRules\n", Expect: "guarded-by"},
 			{Name: "module-table-split-update", File: "bfe_modules/mod_block/product_rule_table.go", Old: "	t.lock.Lock()\n	t.version = conf.Version\n	t.productRules = conf.Config\n	t.lock.Unlock()", New: "	t.lock.Lock()\n	t.version = conf.Version\n	t.lock.Unlock()\n	t.lock.Lock()\n	t.productRules = conf.Config\n	t.lock.Unlock()", Expect: "update-atomic"},
+			{Name: "transport-timeout-in-place-2", File: "bfe_server/reverseproxy.go", Old: "			newTransports[cluster] = transport\n		default:", New: "			t.ResponseHeaderTimeout = time.Millisecond * time.Duration(*backendConf.TimeoutResponseHeader)\n			newTransports[cluster] = transport\n		default:", Expect: "published-immutable"},
+			{Name: "tls-default-rule-after-unlock", File: "bfe_server/tls_server_rule.go", Old: "	m.lock.RLock()\n	defer m.lock.RUnlock()\n\n	// get tls rule conf by vip\n	if rule := m.getRuleByVip(c); rule != nil {\n		return rule\n	}\n\n	// get tls rule conf by sni (supported by modern browser)\n	if rule := m.getRuleBySni(c); rule != nil {\n		return rule\n	}\n", New: "	m.lock.RLock()\n	if rule := m.getRuleByVip(c); rule != nil {\n		m.lock.RUnlock()\n		return rule\n	}\n	if rule := m.getRuleBySni(c); rule != nil {\n		m.lock.RUnlock()\n		return rule\n	}\n	m.lock.RUnlock()\n", Expect: "guarded-by"},
 			{Name: "transports-unlocked", File: "bfe_server/reverseproxy.go", Old: "	p.tsMu.RLock()\n	transport, ok := p.transports[cluster.Name]\n	p.tsMu.RUnlock()", New: "	transport, ok := p.transports[cluster.Name]", Expect: "guarded-by"},
 			{Name: "reload-mutates-snapshot-alias", File: "bfe_balance/bal_table.go", Old: "	t.lock.Lock()\n\n	var fails []string\n	bmNew := make(BalMap)\n	for clusterName, gslbConf := range *gslbConfs.Clusters {\n		bal, ok := t.balTable[clusterName]\n		if !ok {\n			// new one balance\n			bal = bal_gslb.NewBalanceGslb(clusterName)\n		} else {\n			delete(t.balTable, clusterName)\n		}", New: "	t.lock.RLock()\n	bmOld := t.balTable\n	t.lock.RUnlock()\n	t.lock.Lock()\n	t.lock.Unlock()\n\n	var fails []string\n	bmNew := make(BalMap)\n	for clusterName, gslbConf := range *gslbConfs.Clusters {\n		bal, ok := bmOld[clusterName]\n		if !ok {\n			// new one balance\n			bal = bal_gslb.NewBalanceGslb(clusterName)\n		} else {\n			delete(bmOld, clusterName)\n		}\n		t.lock.Lock()", Expect: "guarded-mutation"},
 			{Name: "swap-unchecked-conf", File: "bfe_server/bfe_confdata_load.go", Old: "	srv.confLock.Lock()\n	srv.ServerConf = newServerConf\n	srv.confLock.Unlock()\n", New: "	srv.confLock.Lock()\n	srv.ServerConf = &bfe_route.ServerDataConf{HostTable: newServerConf.HostTable}\n	srv.ServerConf.ClusterTable = newServerConf.ClusterTable\n	srv.confLock.Unlock()\n", Expect: "swap-value"},
@@ -80,8 +82,11 @@ func runC15(c *core.Ctx) {
 	nTables := 0
 	for _, pk := range c.P.Pkgs {
 		rel := strings.TrimPrefix(pk.PkgPath, core.ModPath+"/")
-		if !strings.HasPrefix(rel, "bfe_modules/") {
+		if rel == pk.PkgPath || strings.HasSuffix(rel, "_test") {
 			continue
+		}
+		if strings.HasPrefix(rel, "bfe_balance/") {
+			continue // balancer state nests under BalanceGslb.lock; its lock discipline is C05's subject
 		}
 		scope := pk.Types.Scope()
 		for _, name := range scope.Names() {
@@ -203,6 +208,8 @@ func runC15(c *core.Ctx) {
 	// (snapshot idiom); that is only race-free if a published container is never mutated in
 	// place without the write lock - also not through a local alias taken earlier.
 	nAlias := 0
+	nElem := 0
+	nElemFollowed := 0
 	for _, sp := range specs {
 		switch sp.fld.Type().Underlying().(type) {
 		case *types.Map, *types.Slice:
@@ -230,6 +237,39 @@ func runC15(c *core.Ctx) {
 					}
 					// follow the loaded reference through phis
 					seen := map[ssa.Value]bool{}
+					// visitElem follows an element taken out of the container (the published object
+					// itself): request goroutines keep using such objects after the read lock is
+					// released, so no lock makes a field store on them safe.
+					var visitElem func(v ssa.Value)
+					visitElem = func(v ssa.Value) {
+						if seen[v] || v.Referrers() == nil {
+							return
+						}
+						seen[v] = true
+						nElemFollowed++
+						for _, u := range *v.Referrers() {
+							switch x := u.(type) {
+							case *ssa.Extract, *ssa.TypeAssert, *ssa.Phi, *ssa.ChangeInterface, *ssa.ChangeType:
+								visitElem(x.(ssa.Value))
+							case *ssa.FieldAddr:
+								if x.X != v || x.Referrers() == nil {
+									continue
+								}
+								for _, rr := range *x.Referrers() {
+									if st, isSt := rr.(*ssa.Store); isSt && st.Addr == x {
+										nElem++
+										fv := core.FieldObj(x.X, x.Field)
+										fname := "?"
+										if fv != nil {
+											fname = fv.Name()
+										}
+										c.Check("published-immutable", fmt.Sprintf("%s:%s:%s", k, sp.fld.Name(), fname), st.Pos(), false,
+											fmt.Sprintf("field %s of an object taken out of the published container %s is written in place; goroutines that fetched the object before the reload keep using it without any lock, so they observe the new generation's setting mid-request (build a new object and swap it in instead)", fname, sp.fld.Name()))
+									}
+								}
+							}
+						}
+					}
 					var visit func(v ssa.Value)
 					visit = func(v ssa.Value) {
 						if seen[v] || v.Referrers() == nil {
@@ -255,6 +295,21 @@ func runC15(c *core.Ctx) {
 										if st, isSt := rr.(*ssa.Store); isSt && st.Addr == x {
 											mut = "element store"
 										}
+										if eld, isLd := rr.(*ssa.UnOp); isLd && eld.Op == token.MUL {
+											visitElem(eld)
+										}
+									}
+								}
+							case *ssa.Lookup:
+								if x.X == v {
+									visitElem(x)
+								}
+							case *ssa.Range:
+								if x.X == v && x.Referrers() != nil {
+									for _, nx := range *x.Referrers() {
+										if n, isN := nx.(*ssa.Next); isN {
+											visitElem(n)
+										}
 									}
 								}
 							}
@@ -272,6 +327,11 @@ func runC15(c *core.Ctx) {
 			})
 		}
 	}
+	if nElemFollowed < 20 {
+		c.Check("published-immutable", "sites", token.NoPos, false, fmt.Sprintf("only %d element values taken out of guarded containers were followed; at least 20 were reviewed", nElemFollowed))
+	}
+	c.Note("published-immutable: %d element values followed", nElemFollowed)
+	c.Note("published-immutable: %d in-place field stores on objects taken from guarded containers", nElem)
 	if nAlias < 1 {
 		c.Check("guarded-mutation", "sites", token.NoPos, false, "no in-place mutation of a guarded container found at all (BalTableReload deletes carried-over balancers from the old table under the lock)")
 	}
